@@ -34,6 +34,7 @@ type Plan struct {
 	MaxE     int   // emitting-edge histories replayed (0 = all printed)
 	MaxN     int   // non-emitting block-edge histories replayed (0 = all printed)
 	MaxB     int   // spanning-tree leaf histories replayed (0 = all)
+	MaxM     int   // histories ending in a manual HTTP trigger request replayed (0 = all printed)
 }
 
 func tlaSeq(l []int) string {
@@ -92,6 +93,7 @@ type Gen struct {
 	TreeB     [][]int // first history reaching each distinct state
 	EdgesE    [][]int // every (thinned) history ending in a block transition that emits a trigger
 	EdgesN    [][]int // every (thinned) history ending in a block transition that emits nothing
+	EdgesM    [][]int // every history ending in a manual (HTTP) trigger request
 	States    int
 	Distinct  int
 	Depth     int
@@ -164,6 +166,9 @@ func Generate(c *core.Ctx, p Plan) (*Gen, error) {
 	if g.EdgesN, err = parseHists(res.Tagged["N"]); err != nil {
 		return nil, err
 	}
+	if g.EdgesM, err = parseHists(res.Tagged["M"]); err != nil {
+		return nil, err
+	}
 	return g, nil
 }
 
@@ -177,6 +182,7 @@ type Line struct {
 	Out   []TrigOut `json:"out"`
 	Panic string    `json:"panic"`
 	Err   string    `json:"err"`
+	Code  int       `json:"code"`
 	St    *St       `json:"st,omitempty"`
 	Hist  []int     `json:"hist"`
 }
@@ -332,7 +338,9 @@ func RunTrie(n *Node, g *Gen, beh [][]int, buf *bytes.Buffer, corrupt bool) (Sta
 				return st, fmt.Errorf("seeding universe: %v", err)
 			}
 			obs := n.ObservedUni()
-			if fmt.Sprint(obs) != fmt.Sprint(u) {
+			cmp := obs
+			cmp.Wd = u.Wd // manual_enabled_by_default is an observation, judged by the monitor
+			if fmt.Sprint(cmp) != fmt.Sprint(u) {
 				return st, fmt.Errorf("concretiser does not realise the universe: want %v, tables say %v", u, obs)
 			}
 			s0 := n.Abs()
@@ -375,7 +383,7 @@ func RunTrie(n *Node, g *Gen, beh [][]int, buf *bytes.Buffer, corrupt bool) (Sta
 				corrupt = false
 			}
 			s := n.Abs()
-			enc(Line{K: "op", D: d, Op: &op, Out: r.Out, Panic: r.Panic, Err: r.Err, St: &s, Hist: b[:d+1]})
+			enc(Line{K: "op", D: d, Op: &op, Out: r.Out, Panic: r.Panic, Err: r.Err, Code: r.Code, St: &s, Hist: b[:d+1]})
 			if strings.HasPrefix(r.Panic, "hang") {
 				// the node is unusable after a hang; the line above records it
 				st.Aborted++
@@ -586,6 +594,10 @@ func runOne(c *core.Ctx, p Plan, u Uni, ops []Op) (*Outcome, error) {
 
 func describe(f Finding) string {
 	l := f.Line
+	if l.K == "init" {
+		return fmt.Sprintf("%s failed when the keyper was configured: manual_enabled_by_default=%v - a config file with HTTPEnabled = true and no HTTPReadOnly key, "+
+			"parsed by the repository's config machinery, makes the keyper serve POST /v1/decryptionTrigger (observed configuration %+v)", f.Monitor, l.U != nil && l.U.Wd, l.U)
+	}
 	op := "?"
 	if l.Op != nil {
 		op = l.Op.String()
@@ -602,10 +614,10 @@ func plans(c *core.Ctx) []Plan {
 		}
 		return o
 	}
-	// designed universes 1..4 boundary scenarios, 5 same activation block, 6..9 targeted (see ServiceTriggerMC)
+	// designed universes 1..4 boundary scenarios, 5 same activation block, 6..11 targeted (see ServiceTriggerMC)
 	if c.Thorough() {
 		return []Plan{
-			{Name: "thorough", NI: 4, NT: 2, UseNI: 3, UseNT: 2, MaxGen: [2]int{2, 2}, Designed: []int{1, 2, 3, 4, 6, 7, 8, 9}, UniIdx: rnd(4), EMod: 4, NMod: 16, MaxE: 42000, MaxN: 42000, MaxB: 18000},
+			{Name: "thorough", NI: 4, NT: 2, UseNI: 3, UseNT: 2, MaxGen: [2]int{2, 2}, Designed: []int{1, 2, 3, 4, 6, 7, 8, 9, 10, 11}, UniIdx: rnd(4), EMod: 4, NMod: 16, MaxE: 42000, MaxN: 42000, MaxB: 18000, MaxM: 0},
 			{Name: "sameact", NI: 4, NT: 2, UseNI: 3, UseNT: 1, MaxGen: [2]int{2, 1}, Designed: []int{5}, UniIdx: rnd(1), SameAct: true, EMod: 2, NMod: 8, MaxE: 5000, MaxN: 3000, MaxB: 2000},
 		}
 	}
@@ -615,8 +627,8 @@ func plans(c *core.Ctx) []Plan {
 	if d < 0 {
 		d = -d
 	}
-	return []Plan{{Name: "quick", NI: 4, NT: 2, UseNI: 3, UseNT: 1, MaxGen: [2]int{2, 1}, Designed: []int{1 + d, 6, 7, 8, 9}, UniIdx: rnd(100), PickOne: true,
-		EMod: 2, NMod: 8, MaxE: 2400, MaxN: 1800, MaxB: 600}}
+	return []Plan{{Name: "quick", NI: 4, NT: 2, UseNI: 3, UseNT: 1, MaxGen: [2]int{2, 1}, Designed: []int{1 + d, 6, 7, 8, 9, 10, 11}, UniIdx: rnd(100), PickOne: true,
+		EMod: 2, NMod: 8, MaxE: 2400, MaxN: 1800, MaxB: 600, MaxM: 400}}
 }
 
 // Check runs the C02 check.
@@ -631,6 +643,8 @@ func Check(c *core.Ctx) int {
 	rng := rand.New(rand.NewSource(c.Seed))
 	report := func(o *Outcome, tag string) {
 		shown := 0
+		// steps of the real code first, configuration observations after them
+		sort.SliceStable(o.Findings, func(i, j int) bool { return o.Findings[i].Line.K == "op" && o.Findings[j].Line.K != "op" })
 		for _, f := range o.Findings {
 			if k := matchKnown(f, known); k != nil {
 				knownHits++
@@ -701,6 +715,7 @@ func Check(c *core.Ctx) int {
 			leaves := maximal(append([][]int{}, g.TreeB...))
 			beh = append(beh, sample(append([][]int{}, g.EdgesE...), p.MaxE, rng)...)
 			beh = append(beh, sample(append([][]int{}, g.EdgesN...), p.MaxN, rng)...)
+			beh = append(beh, sample(append([][]int{}, g.EdgesM...), p.MaxM, rng)...)
 			beh = append(beh, sample(leaves, p.MaxB, rng)...)
 			beh = maximal(beh)
 		}
